@@ -101,6 +101,8 @@ type Worker struct {
 	funcsSeen map[*ssa.Function]int64
 	assertQueries int
 	assertsSeen   int
+	solLevels     []int
+	prevTaken     []int
 }
 
 type phase int
@@ -225,6 +227,7 @@ type Path struct {
 	ufSeen   map[string]bool
 	assumes  int
 	sample   map[string]interface{}
+	levelCount []int
 }
 
 func (p *Path) tc() *TermCtx { return p.wk.tc }
@@ -314,6 +317,10 @@ func (p *Path) fork(conds []*Term, what string) int {
 	return d
 }
 
+// assertPC adds c to the path condition. Solver scopes are aligned with decision counts so that
+// consecutive paths of a worker reuse the assertions of their common decision prefix: level k holds
+// what was asserted while k decisions had been taken; an assertion that the previous path already
+// made at the same position of the same level is not sent again.
 func (p *Path) assertPC(c *Term) {
 	if c.IsConst() {
 		return
@@ -321,7 +328,46 @@ func (p *Path) assertPC(c *Term) {
 	if p.concreteModel != nil {
 		return
 	}
-	p.wk.sol.Assert(c)
+	wk := p.wk
+	if p.nofork {
+		return
+	}
+	lvl := len(p.taken)
+	for len(p.levelCount) <= lvl {
+		p.levelCount = append(p.levelCount, 0)
+	}
+	for len(wk.solLevels) <= lvl {
+		wk.sol.Push()
+		wk.solLevels = append(wk.solLevels, 0)
+	}
+	p.levelCount[lvl]++
+	if p.levelCount[lvl] <= wk.solLevels[lvl] {
+		return // already asserted by the previous path on the shared prefix
+	}
+	if lvl != len(wk.solLevels)-1 {
+		// cannot happen: deeper levels were popped when this path started
+		panic(unsupportedf("internal: solver scope mismatch (level %d of %d)", lvl, len(wk.solLevels)))
+	}
+	wk.sol.Assert(c)
+	wk.solLevels[lvl]++
+}
+
+// alignSolver pops the solver back to the scopes shared with the previous path of this worker.
+func (wk *Worker) alignSolver(prefix []int) {
+	common := 0
+	for common < len(prefix) && common < len(wk.prevTaken) && prefix[common] == wk.prevTaken[common] {
+		common++
+	}
+	// levels 0..common are shared (level k = assertions made while k decisions were taken)
+	keep := common + 1
+	if len(wk.solLevels) == 0 {
+		wk.sol.Push()
+		wk.solLevels = append(wk.solLevels, 0)
+	}
+	for len(wk.solLevels) > keep {
+		wk.sol.Pop()
+		wk.solLevels = wk.solLevels[:len(wk.solLevels)-1]
+	}
 }
 
 // branch decides a boolean condition.
@@ -479,6 +525,17 @@ func (p *Path) check(cond *Term, kind, msg string) {
 			panic(pathEnd{endStop, "assertion is false in replay"})
 		}
 		return
+	}
+	if lvl := len(p.taken); lvl < len(p.wk.solLevels) {
+		done := 0
+		if lvl < len(p.levelCount) {
+			done = p.levelCount[lvl]
+		}
+		if p.wk.solLevels[lvl] > done {
+			// this very assertion was already decided by the previous path on the shared prefix
+			p.assertPC(cond)
+			return
+		}
 	}
 	p.wk.assertQueries++
 	if p.spec.dumpDir != "" {
